@@ -7,10 +7,12 @@ import (
 	"fmt"
 	"io"
 	"net"
+	"reflect"
 	"runtime"
 	"strings"
 
 	"nhooyr.io/websocket"
+	"nhooyr.io/websocket/wsjson"
 	"verif/fw"
 	"verif/refws/deflate"
 	"verif/refws/frame"
@@ -192,6 +194,42 @@ func c08ReadOne(conn *websocket.Conn, api string) (r c08Reading) {
 	return r
 }
 
+// c08JSONDoc is a JSON document of exactly size bytes: one string ("wsjson-string"), or a
+// short value followed by white space ("wsjson-padded": the value is complete long before
+// the message is; the document as a whole is still valid JSON).
+func c08JSONDoc(api string, size int) []byte {
+	b := bytes.Repeat([]byte{' '}, size)
+	switch {
+	case size < 2:
+		return bytes.Repeat([]byte{'7'}, size) // "7", or the empty (invalid) document
+	case api == "wsjson-padded" && size >= 7:
+		copy(b, `{"a":1}`)
+	default:
+		for i := range b {
+			b[i] = 'a' + byte(i%26)
+		}
+		b[0], b[size-1] = '"', '"'
+	}
+	return b
+}
+
+// c08ReadJSON reads one message with wsjson.Read; data is the document when the decoded
+// value is the document's value, nil otherwise.
+func c08ReadJSON(conn *websocket.Conn, doc []byte) (r c08Reading) {
+	ctx, cancel := mxGuard(mxGuardTime)
+	defer cancel()
+	var v interface{}
+	r.panicked = fw.Recover(func() { r.err = wsjson.Read(ctx, conn, &v) })
+	r.guardFire = mxHung(r.err)
+	if r.err == nil {
+		var want interface{}
+		if json.Unmarshal(doc, &want) == nil && reflect.DeepEqual(v, want) {
+			r.data = doc
+		}
+	}
+	return r
+}
+
 // c08ReadNetConn reads one message's worth of bytes through the net.Conn adapter:
 // exactly size bytes when the message is within the limit (an empty message is
 // skipped by the adapter), otherwise until the read fails.
@@ -249,6 +287,9 @@ func c08OneP(c *fw.Ctx, cs c08Case, prop string) {
 		}
 		limits[i] = cur
 		payloads[i] = c08Payload(cs.Comp, m.Size, i)
+		if strings.HasPrefix(cs.API, "wsjson") {
+			payloads[i] = c08JSONDoc(cs.API, m.Size)
+		}
 		wire := payloads[i]
 		if cs.Comp == "bfinal" {
 			// the sender ends every message with a BFINAL=1 block (RFC 7692 7.2.3.4)
@@ -259,7 +300,7 @@ func c08OneP(c *fw.Ctx, cs c08Case, prop string) {
 			wire = def.Message(payloads[i])
 		}
 		op := byte(frame.OpBinary)
-		if i%2 == 1 && cs.API != "netconn" {
+		if i%2 == 1 && cs.API != "netconn" || strings.HasPrefix(cs.API, "wsjson") {
 			op = frame.OpText
 		}
 		in = append(in, mxEncode(mxSplit(op, masked, cs.Comp != "off", wire, c08Cuts(m.Framing, len(wire), cur))...)...)
@@ -288,6 +329,8 @@ func c08OneP(c *fw.Ctx, cs c08Case, prop string) {
 		var r c08Reading
 		if nc != nil {
 			r = c08ReadNetConn(nc, m.Size, L)
+		} else if strings.HasPrefix(cs.API, "wsjson") {
+			r = c08ReadJSON(conn, payloads[i])
 		} else {
 			r = c08ReadOne(conn, cs.API)
 		}
@@ -521,6 +564,24 @@ func c08Cases(thorough bool) []c08Case {
 							m1 := c08Msg{Size: int(first), Framing: "one", SetLimit: ch[0] != c08DefaultLimit, Limit: ch[0]}
 							m2 := c08Msg{Size: s2, Framing: fr, SetLimit: true, Limit: ch[1]}
 							out = append(out, c08Case{Kind: "limit", Client: client, Comp: comp, API: api, Msgs: []c08Msg{m1, m2}})
+						}
+					}
+				}
+			}
+		}
+	}
+	// wsjson.Read: documents around the limit, as one long string and as a short value padded with white space
+	for _, client := range []bool{false, true} {
+		for _, api := range []string{"wsjson-string", "wsjson-padded"} {
+			for _, comp := range []string{"off", "no-takeover"} {
+				for _, L := range []int64{125, 4096, c08DefaultLimit, -1} {
+					for _, size := range c08Sizes(L, false) {
+						if size < 1 {
+							continue
+						}
+						for _, fr := range []string{"one", "split-at-limit"} {
+							m := c08Msg{Size: size, Framing: fr, SetLimit: L != c08DefaultLimit, Limit: L}
+							out = append(out, c08Case{Kind: "limit", Client: client, Comp: comp, API: api, Msgs: []c08Msg{m}})
 						}
 					}
 				}
